@@ -249,8 +249,12 @@ def stepJob (s : St) (i : Nat) : Option St :=
           some { s with callers := updAt s.callers i (setJob (.blocked s.nextTicket)),
                         recvTask := some i, nextTicket := s.nextTicket + 1 }
       | .submitted .send => some { s with callers := updAt s.callers i (setJob (.done .ok)) }
-      | .submitted .initClose | .submitted .logout =>
+      | .submitted .initClose =>
         some { s with callers := updAt s.callers i (setJob (.done .ok)), closePc := s.closePc.initiate }
+      | .submitted .logout =>
+        -- session.logout(): LogoutRequest is written, then initiate_close(); a peer that gets the logout request
+        -- ends the conversation: nothing it might still have wanted to send arrives
+        some { s with callers := updAt s.callers i (setJob (.done .ok)), closePc := s.closePc.initiate, peer := [] }
       | .submitted .slow => some { s with callers := updAt s.callers i (setJob .running) }
       | _ => none
   else none
@@ -287,7 +291,8 @@ def stepPeer (s : St) : Option St :=
   | [] => none
   | ev :: rest =>
     if s.closePc.busy then none
-    else if !s.loopAlive then some { s with peer := rest }             -- nobody reads the socket any more
+    else if !s.loopAlive then                                           -- nobody reads the socket any more
+      some { s with peer := match ev with | .reply => rest | _ => [] }
     else
       match ev with
       | .reply =>
